@@ -102,7 +102,7 @@ Section Recall.
   Lemma kh_next_char : keeps_hist next_char.
   Proof.
     intros s a s' H. unfold next_char in H.
-    destruct (take_char (in_cur (e_inp s)) (in_rest (e_inp s))) as [[[c|] i]|]; try discriminate;
+    destruct (take_char (in_cur (e_inp s)) (in_rest (e_inp s))) as [[[c| |pm] i]|]; try discriminate;
       cbn in H; inversion H; reflexivity.
   Qed.
   Lemma kh_poll t : keeps_hist (poll t). Proof. unfold poll. kh_auto. Qed.
@@ -240,10 +240,20 @@ Section Recall.
   Lemma kh_incremental_search fuel : keeps_hist (incremental_search U cfg fuel).
   Proof. unfold incremental_search, changes_begin. kh_auto; apply kh_isearch_loop. Qed.
 
+  Lemma kh_external_print m : keeps_hist (external_print U cfg m).
+  Proof. unfold external_print. kh_display. kh_auto. Qed.
+  Lemma kh_drain_prints fuel : keeps_hist (drain_prints U cfg fuel).
+  Proof.
+    induction fuel as [|f IH]; cbn [drain_prints]; [apply kh_ret|].
+    apply kh_bind; [apply kh_get|]. intros s. destruct (peek_print (e_inp s)) as [[m i]|]; [|apply kh_ret].
+    apply kh_bind; [apply kh_set_inp|]. intros _. apply kh_bind; [apply kh_external_print|]. intros _. exact IH.
+  Qed.
+
   (* C07: NO input whatsoever makes a read change the stored history *)
   Theorem main_loop_keeps_history fuel : keeps_hist (main_loop U cfg fuel).
   Proof.
     induction fuel as [|f IH]; cbn [main_loop]; [apply kh_fuel|].
+    apply kh_bind; [apply kh_get|]. intros s00. apply kh_bind; [apply kh_drain_prints|]. intros _.
     apply kh_bind; [apply kh_next_cmd|]. intros c0.
     apply kh_bind; [kh_auto|]. intros _.
     apply kh_bind; [destruct c0; kh_auto; apply kh_complete_line|]. intros oc.
